@@ -210,6 +210,17 @@ type replayFile struct {
 	Trace       []string       `json:"trace"`
 	RepoHead    string         `json:"repo_head,omitempty"`
 	OrigChoices int            `json:"original_choice_count"`
+	// History, for race reports that only appear after the runs that preceded
+	// them in their worker process (the race detector's bounded per-goroutine
+	// history makes detection depend on what the process did before): the
+	// worker's index sequence from, from+step, ... up to Run.
+	History *workerHistory `json:"worker_history,omitempty"`
+}
+
+type workerHistory struct {
+	From  uint64 `json:"from"`
+	Step  int    `json:"step"`
+	Count uint64 `json:"count"`
 }
 
 func cmdReplay(args []string) int {
@@ -233,6 +244,23 @@ func cmdReplay(args []string) int {
 	if e == nil {
 		fmt.Fprintln(os.Stderr, "no such engine", rf.Engine)
 		return 2
+	}
+	if rf.History != nil && simrt.RaceBuild {
+		// a race report that needs its process history: repeat the worker's runs
+		self, _ := os.Executable()
+		if replayHistory(self, rf.Engine, rf.Tier, rf.Seed, *known, rf.History, rf.Run) {
+			if !*quiet {
+				for _, l := range rf.Trace {
+					fmt.Println("  " + l)
+				}
+				fmt.Printf("the -race binary reports a data race at run %d again after repeating the %d preceding runs of its worker\n", rf.Run, rf.History.Count-1)
+			}
+			return 66
+		}
+		if !*quiet {
+			fmt.Println("replay did not reproduce the recorded race report on this tree")
+		}
+		return 0
 	}
 	o := opts{tier: rf.Tier, race: simrt.RaceBuild, known: engine.LoadKnown(*known)}
 	c := simrt.NewReplayChooser(rf.Choices)
@@ -382,7 +410,7 @@ func cmdCheck(args []string) int {
 			}
 			if ee, ok := err.(*exec.ExitError); ok && ee.ExitCode() == 66 && tag != "" && strings.Contains(errBuf.String(), "DATA RACE") {
 				mu.Lock()
-				raceFails = append(raceFails, &raceFail{Idx: lastStart, Report: errBuf.String()})
+				raceFails = append(raceFails, &raceFail{Idx: lastStart, Report: errBuf.String(), From: from, Step: nw, Count: started})
 				total.Counters[tag+"runs"] += int64(started)
 				mu.Unlock()
 				// go on after the run that died
@@ -574,6 +602,23 @@ func cmdCheck(args []string) int {
 			reproduced = raceReplay(plain.Choices)
 		}
 		if !reproduced {
+			// second attempt: the same process history (the runs the worker executed
+			// before it, each of which is deterministic)
+			hist := &workerHistory{From: rf.From, Step: rf.Step, Count: rf.Count}
+			if replayHistory(*raceBin, *eng, *tier, *seed, *known, hist, rf.Idx) && replayHistory(*raceBin, *eng, *tier, *seed, *known, hist, rf.Idx) {
+				c2 := simrt.NewReplayChooser(plain.Choices)
+				final := runOne(e, c2, -1, orace, engine.NewStats(), true)
+				path := writeReplayHist(*replays, *prop, *eng, v, *seed, f, plain.Choices, final.Trace, *tier, *repoHead, hist)
+				fmt.Printf("VIOLATION property=%s replay=%s\n", *prop, path)
+				fmt.Printf("  %s: %s\n", v.Key(), v.Msg)
+				fmt.Printf("    (reported only after the %d runs that preceded run %d in its worker process; the replay file repeats that history)\n", rf.Count-1, rf.Idx)
+				for _, l := range final.Trace {
+					fmt.Println("    " + l)
+				}
+				nviol++
+				reports = append(reports, map[string]any{"key": v.Key(), "msg": trunc(v.Msg, 2000), "replay": path, "choices": len(plain.Choices), "history_runs": rf.Count})
+				continue
+			}
 			fmt.Fprintf(os.Stderr, "harness trouble: data race %s of run %d does not reproduce from its choice list in a fresh process\n", class, rf.Idx)
 			fmt.Fprintln(os.Stderr, trimReport(rf.Report))
 			raceTrouble = true
@@ -700,6 +745,9 @@ func cmdCheck(args []string) int {
 type raceFail struct {
 	Idx    uint64
 	Report string
+	From   uint64
+	Step   int
+	Count  uint64
 }
 
 // raceClass names a race report by the functions of its two top frames.
@@ -762,6 +810,48 @@ func writeReplay(dir, prop, eng string, v *engine.Violation, seed uint64, f *run
 		Tier: tier, Race: race, Choices: choices, Fingerprint: fp, Trace: trace, RepoHead: head, OrigChoices: len(f.Choices)}
 	b, _ := json.MarshalIndent(rf, "", " ")
 	os.WriteFile(path, b, 0o644)
+	return path
+}
+
+// replayHistory runs the -race binary as a worker over the index sequence the
+// original worker executed and reports whether it dies with a race report at
+// the same run.
+func replayHistory(bin, eng, tier string, seed uint64, known string, h *workerHistory, idx uint64) bool {
+	if bin == "" || h == nil || h.Count == 0 {
+		return false
+	}
+	cmd := exec.Command(bin, "worker", "-engine", eng, "-tier", tier, "-seed", fmt.Sprint(seed), "-from", fmt.Sprint(h.From), "-step", fmt.Sprint(h.Step),
+		"-runs", fmt.Sprint(h.Count), "-seconds", "600", "-known", known, "-enum-n", "0")
+	cmd.Env = append(os.Environ(), "GORACE=halt_on_error=1 exitcode=66")
+	var eb strings.Builder
+	cmd.Stderr = &eb
+	out, err := cmd.Output()
+	ee, ok := err.(*exec.ExitError)
+	if !ok || ee.ExitCode() != 66 || !strings.Contains(eb.String(), "DATA RACE") {
+		return false
+	}
+	last := uint64(0)
+	for _, l := range strings.Split(string(out), "\n") {
+		var wo workerOut
+		if json.Unmarshal([]byte(l), &wo) == nil && wo.Start != nil {
+			last = *wo.Start
+		}
+	}
+	return last == idx
+}
+
+func writeReplayHist(dir, prop, eng string, v *engine.Violation, seed uint64, f *runResult, choices []int, trace []string, tier, head string, h *workerHistory) string {
+	path := writeReplay(dir, prop, eng, v, seed, f, choices, trace, tier, true, head, "")
+	b, err := os.ReadFile(path)
+	if err != nil {
+		return path
+	}
+	var rf replayFile
+	if json.Unmarshal(b, &rf) == nil {
+		rf.History = h
+		nb, _ := json.MarshalIndent(rf, "", " ")
+		os.WriteFile(path, nb, 0o644)
+	}
 	return path
 }
 
